@@ -348,6 +348,15 @@ void vchild_run(int ctl, int image, char *const *argv, char *const *envp)
         if (close(c.a) < 0) reply(ST_ERR, errno, NULL, 0);
         else reply(ST_DONE, 0, NULL, 0);
         break;
+      case 'Z': {
+        /* what the kernel does first when a process exits: every descriptor goes away (the exit handle among them)
+         * while the process is not yet waitable. The control socket stays. */
+        if (probe) { reply(ST_READY, 0, NULL, 0); break; }
+        for (int fd = 0; fd < 256; fd++)
+          if (fd != g_ctl) close(fd);
+        reply(ST_DONE, 0, NULL, 0);
+        break;
+      }
       case 'X':
         if (probe) { reply(ST_READY, 0, NULL, 0); break; }
         _exit(c.a);
